@@ -184,8 +184,9 @@ ODD_SUFFIXES = ["(1)", "(a)", "'", "-a", "+", "\u00e9", "*", "@x", "&", "#2", "(
 
 class Defn:
     def __init__(self, rng, apid_name="PKT_APID", max_depth=3, fanout=3, neg_lengths=False, adj_pool=None, rich=False,
-                 odd_names=False):
+                 odd_names=False, wide_ctx=False):
         self.odd_names = odd_names
+        self.wide_ctx = wide_ctx
         self.rng = rng
         self.neg_lengths = neg_lengths
         self.adj_pool = adj_pool    # slope/intercept pairs for length adjustments (definitions that are not encoded)
@@ -268,6 +269,14 @@ class Defn:
                         ["poly", [fnum(Fraction(1, 4)), "1"]]]]
                 default = "-" if rng.random() < 0.5 else ["poly", [fnum(-1), "0"], [fnum(1), "1"]]
                 tn = f"{fn}_T"
+                if self.wide_ctx and rng.random() < 0.3:
+                    # a 64-bit field that only a context calibrates (to a constant): its column mixes floats with integers
+                    # beyond 2^53
+                    pt = PT(tn, ["pt", S(tn), "plain", ["int", "64", S("unsigned"), S(MSB),
+                                                         ["-", [["ctx", [c06.cmp_sx(sel, "==", "1", True)], ["poly", [fnum(5), "0"]]]]]]],
+                            64, lambda rng, cv=None: "0001" + rbits(rng, 59) + "1")
+                    c.entries.append(("p", fn, pt))
+                    continue
                 pt = PT(tn, ["pt", S(tn), rng.choice(["plain", "plain", "bool"]),
                              ["int", "8", S("unsigned"), S(MSB), [default, ctx]]], 8,
                         # raw values recur across packets (under different contexts): results must not depend on history
@@ -338,6 +347,13 @@ class Defn:
                     ["bexpr", pp()],
                     ["bexpr", ["and", [lit, pp()], [["or", [pp(), lit], []]]]],
                     ["bexpr", ["or", [pp()], [["and", [lit, pp()], [["or", [lit, pp()], []]]]]]],
+                    # several nested groups of one kind side by side (CNF / DNF), groups made of sub-groups only
+                    ["bexpr", ["and", [], [["or", [lit, pp()], []], ["or", [pp(), lit], []]]]],
+                    ["bexpr", ["or", [], [["and", [lit, pp()], []], ["and", [pp()], []], ["and", [lit], []]]]],
+                    ["bexpr", ["and", [lit], [["or", [], [["and", [lit, pp()], []], ["and", [pp(), lit], []]]]]]],
+                    ["bexpr", ["or", [pp()], [["and", [], [["or", [lit], []], ["or", [pp(), pp()], []]]]]]],
+                    # a literal that is the empty string (`<Value></Value>`)
+                    ["bexpr", ["or", [lit], [["and", [c06.cond_sx(selector[0], "==", None, "", True, False)], []]]]],
                 ])]
             ch.sel_value = k
             c.children.append(ch)
